@@ -1142,7 +1142,7 @@ class VM:
                 return obj.name
             if key_str == "prototype":
                 return getattr(obj, "_prototype", UNDEFINED) or UNDEFINED
-            return UNDEFINED
+            return obj._properties.get(key_str, UNDEFINED)
 
         if isinstance(obj, JSObject):
             # Check for getter first
@@ -2374,6 +2374,16 @@ class VM:
                 self._invoke_setter(setter, obj, value)
             else:
                 obj.set(key_str, value)
+        elif isinstance(obj, JSFunction):
+            if key_str == "prototype":
+                # The object that instances created with `new` are linked to
+                obj._prototype = value
+            elif key_str in ("name", "length"):
+                raise JSTypeError(
+                    f"Cannot assign to read only property '{key_str}' of function"
+                )
+            else:
+                obj._properties[key_str] = value
 
     def _delete_property(self, obj: JSValue, key: JSValue) -> bool:
         """Delete property from object."""
@@ -2598,8 +2608,10 @@ class VM:
             # Create new object
             obj = JSObject()
             # Set prototype from constructor's prototype property
-            if hasattr(constructor, "_prototype"):
-                obj._prototype = constructor._prototype
+            # (a prototype property that is not an object is ignored)
+            proto = getattr(constructor, "_prototype", None)
+            if isinstance(proto, JSObject):
+                obj._prototype = proto
             # Call constructor with new object as 'this'
             # Mark this as a constructor call so RETURN knows to return the object
             self._invoke_js_function(
